@@ -20,7 +20,7 @@ Fresh == [alive |-> FALSE, g |-> "nil", cfg |-> FALSE, limited |-> FALSE]
 InitState == [i \in Insts |-> Fresh]
 
 \* input kinds of sqfvm_call with type 's'
-SqfKinds == {"setg1", "setg2", "readg", "readcfg", "ppfail", "parsefail", "rterr", "rterr_spawned", "endless", "sleeper", "empty"}
+SqfKinds == {"setg1", "setg2", "readg", "readcfg", "ppfail", "parsefail", "rterr", "rterr_spawned", "endless", "sleeper", "napper", "empty"}
 CfgKinds == {"cfgok", "cfgparsefail", "cfgppfail"}
 
 ToS(n) == ToString(n)
@@ -53,6 +53,9 @@ Apply(st, o) ==
               [] o.kind = "endless" -> [st |-> st, obs |-> [ret |-> (IF DeadlineIsFailure THEN -6 ELSE 0), status |-> 0, out |-> ""]]
               \* the time limit expires while the only script left (spawned) is asleep: the run is aborted, the script discarded
               [] o.kind = "sleeper" -> [st |-> st, obs |-> [ret |-> (IF DeadlineIsFailure THEN -6 ELSE 0), status |-> 0, out |-> ""]]
+              \* a spawned script that sleeps for a moment and then sets the probe: the call waits for it and succeeds -
+              \* also on an instance that has existed (and idled) longer than its time budget
+              [] o.kind = "napper" -> [st |-> [st EXCEPT ![o.i].g = "3"], obs |-> [ret |-> 0, status |-> 0, out |-> ""]]
               [] o.kind = "empty" -> [st |-> st, obs |-> [ret |-> 0, status |-> 0, out |-> ""]])
 
 Enabled(st, o) ==
